@@ -3,8 +3,10 @@ pub mod common;
 pub mod c01;
 pub mod c04;
 pub mod c05;
+pub mod c06;
 pub mod c07;
 pub mod c09;
+pub mod c12;
 pub mod c14;
 pub mod c15;
 pub mod c16;
